@@ -154,6 +154,55 @@ func runRemoteOrder(t testing.TB, k, m, nt int, rr *vgen.Rng) string {
 	return res + " self=" + a.Address() + " plan=" + strings.Join(plans, "/") + " " + strings.Join(parts, " ")
 }
 
+// multi: one engine sends to actors on TWO peers, alternating as the plan says (one goroutine: the sends are ordered by
+// happens-before); every message must arrive at the peer it was addressed to, once, in order
+func runRemoteMulti(t testing.TB, n int, rr *vgen.Rng) string {
+	x, rx, err := vRemoteEngine(vFreeAddr())
+	if err != nil {
+		return "setup-error"
+	}
+	defer func() { rx.Stop().Wait() }()
+	rec := &vRecv{logs: map[string][]string{}}
+	var addrs []string
+	for _, name := range []string{"a", "b"} {
+		name := name
+		addr := vFreeAddr()
+		pe, pr, err := vRemoteEngine(addr)
+		if err != nil {
+			return "setup-error"
+		}
+		defer func() { pr.Stop().Wait() }()
+		pe.SpawnFunc(func(c *actor.Context) {
+			if msg, ok := c.Message().(*TestMessage); ok {
+				rec.add(name, string(msg.Data))
+			}
+		}, "tgt", actor.WithID("x"))
+		addrs = append(addrs, addr)
+	}
+	plan := make([]byte, n)
+	for i := range plan {
+		plan[i] = byte('0' + rr.Intn(2))
+	}
+	if n >= 4 { // the pattern a, b, a, a is always there
+		copy(plan, "0100")
+	}
+	for i := 0; i < n; i++ {
+		x.Send(actor.NewPID(addrs[plan[i]-'0'], "tgt/x"), &TestMessage{Data: []byte("m" + strconv.Itoa(i))})
+		if i%3 == 0 {
+			time.Sleep(time.Millisecond) // spaced: several writer batches
+		}
+	}
+	ok := vWaitFor(func() bool { rec.mu.Lock(); defer rec.mu.Unlock(); return rec.n >= n }, 10*time.Second)
+	time.Sleep(20 * time.Millisecond)
+	rec.mu.Lock()
+	defer rec.mu.Unlock()
+	res := "complete"
+	if !ok {
+		res = "INCOMPLETE"
+	}
+	return res + " plan=" + string(plan) + " a=" + strings.Join(rec.logs["a"], "|") + " b=" + strings.Join(rec.logs["b"], "|")
+}
+
 func runRemoteReqResp(t testing.TB, n int) string {
 	a, ra, err := vRemoteEngine(vFreeAddr())
 	if err != nil {
@@ -511,6 +560,8 @@ func TestVerifRemote(t *testing.T) {
 		switch kind {
 		case "order":
 			w.Case(id, in, runRemoteOrder(t, vgen.KVInt(in, "senders", 1), vgen.KVInt(in, "msgs", 1), vgen.KVInt(in, "targets", 1), vgen.NewRng(seed)))
+		case "multi":
+			w.Case(id, in, runRemoteMulti(t, vgen.KVInt(in, "msgs", 4), vgen.NewRng(seed)))
 		case "reqresp":
 			w.Case(id, in, runRemoteReqResp(t, vgen.KVInt(in, "n", 1)))
 		case "unreach":
@@ -551,6 +602,10 @@ func TestVerifRemote(t *testing.T) {
 		run(fmt.Sprintf("u%d", i), fmt.Sprintf("kind=unreach msgs=%d", 1+r.Intn(12)), 0)
 	}
 	run("ab0", "kind=abort", 0)
+	for i := 0; i < vgen.Scale(2, 12); i++ {
+		seed := r.Next() % 100000
+		run(fmt.Sprintf("mp%d", i), fmt.Sprintf("kind=multi msgs=%d seed=%d", 6+r.Intn(30), seed), seed)
+	}
 	run("rc0", fmt.Sprintf("kind=reconnect host=name msgs=%d", 1+r.Intn(5)), 0)
 	run("rc1", fmt.Sprintf("kind=reconnect host=ip msgs=%d", 1+r.Intn(5)), 0)
 	stateSeqs := []string{"start,dial,start,dial,stop,dial,stop,dial", "stop,start,dial,stop,stop,start,dial", "dial,start,stop,dial",
